@@ -251,6 +251,8 @@ impl TxPoolController {
             detached_proposal_id,
             snapshot,
         ));
+        #[cfg(feature = "verif-hooks")]
+        crate::verif::work(0);
         self.reorg_sender.try_send(notify).map_err(|e| {
             let (_m, e) = handle_try_send_error(e);
             e.into()
@@ -648,6 +650,8 @@ impl TxPoolServiceBuilder {
                             Some(message) = block_assembler_receiver.recv() => {
                                 let service_clone = process_service.clone();
                                 block_assembler::process(service_clone, &message).await;
+                                #[cfg(feature = "verif-hooks")]
+                                crate::verif::work(3);
                             },
                             _ = signal_receiver.cancelled() => {
                                 info!("TxPool block_assembler process service received exit signal, exit now");
@@ -720,6 +724,8 @@ impl TxPoolServiceBuilder {
                         .await;
 
                         service.update_block_assembler_after_tx_pool_reorg().await;
+                        #[cfg(feature = "verif-hooks")]
+                        crate::verif::work(1);
                     },
                     _ = signal_receiver.cancelled() => {
                         info!("TxPool reorg process service received exit signal, exit now");
@@ -1214,6 +1220,8 @@ impl TxPoolService {
             {
                 block_assembler.candidate_uncles.lock().await.insert(uncle);
             }
+            #[cfg(feature = "verif-hooks")]
+            crate::verif::work(2);
             if self
                 .block_assembler_sender
                 .send(BlockAssemblerMessage::Uncle)
